@@ -119,6 +119,9 @@ void fp_param_set(int param) {
 		bn_new(p);
 
 		core_get()->fp_id = param;
+		/* Forget the generation parameter of a previously selected prime. */
+		bn_zero(&(core_get()->par));
+		core_get()->par_len = 0;
 
 		switch (param) {
 #if FP_PRIME == 127
